@@ -25,7 +25,7 @@ ASSUMPTIONS = [
     "tie fairness is checked on the fixed seeds 0..127 for <=4 tied optima",
 ]
 PROFILE = {
-    "quick": dict(examples=2500, shards=16, budget_s=60),
+    "quick": dict(examples=6000, shards=16, budget_s=60),
     "thorough": dict(examples=60000, shards=16, budget_s=900),
 }
 
